@@ -21,6 +21,13 @@ def gen_config(rng, required=None, defender=None, save=None, max_steps=None):
     env = cfg["env"]
     env["required_players"] = required if required is not None else rng.choice([1, 1, 2, 2, 3])
     env["rewards"] = {"step": rng.choice([-1, 0, -3]), "success": rng.choice([100, 7, 0]), "fail": rng.choice([-10, -5, 0])}
+    if rng.random() < 0.35:
+        # a partial rewards section (absent names default to 0), or none at all
+        for k in ("step", "success", "fail"):
+            if rng.random() < 0.45:
+                del env["rewards"][k]
+        if not env["rewards"] and rng.random() < 0.5:
+            del env["rewards"]
     env["use_global_defender"] = bool(rng.random() < 0.3) if defender is None else defender
     env["save_trajectories"] = bool(rng.random() < 0.3) if save is None else save
     env["use_firewall"] = rng.random() < 0.8
@@ -97,7 +104,8 @@ def gen_game(rng, g, addr):
         h = rng.choice(sorted(st.known_data, key=str))
         d = rng.choice(sorted(st.known_data[h]))
         return game_msg("ExfiltrateData", source_host=ip(str(h)), target_host=ip(rng.choice(ctrl)), data=dat(d))
-    return game_msg("BlockIP", source_host=ip(src), target_host=ip(rng.choice(ctrl or known)), blocked_host=ip(rng.choice(known)))
+    blocked = rng.choice(known) if rng.random() < 0.7 else rng.choice(["8.8.8.8", "10.99.0.1", "192.168.77.7"])      # also addresses outside the scenario
+    return game_msg("BlockIP", source_host=ip(src), target_host=ip(rng.choice(ctrl or known)), blocked_host=ip(blocked))
 
 
 def gen_invalid_game(rng):
@@ -129,7 +137,11 @@ GARBAGE = ["   ", "not json", "{", "[1,2]", "null", "{}", '{"action_type": "Acti
            '{"action_type": "ActionType.FindData", "parameters": {"source_host": {"ip": "999.1.1.1"}}}',
            '{"parameters": {}}', '{"action_type": "ActionType.JoinGame", "parameters": {"agent_info": {"name": "x"}}}',
            '{"action_type": "ActionType.ResetGame", "parameters": {"request_trajectory": "maybe"}}',
-           '{"action_type": "ActionType.ScanNetwork", "parameters": {"source_host": "1.1.1.1"}}']
+           '{"action_type": "ActionType.ScanNetwork", "parameters": {"source_host": "1.1.1.1"}}',
+           '{"action_type": "NotAnActionType.ResetGame", "parameters": {}}', '{"action_type": "my.ActionType.QuitGame", "parameters": {}}',
+           '{"action_type": "ActionType.ActionType.ScanNetwork", "parameters": {"source_host": {"ip": "192.168.2.2"}, "target_network": {"ip": "192.168.1.0", "mask": 24}}}',
+           '{"action_type": "xActionType.JoinGame", "parameters": {"agent_info": {"name": "x", "role": "Attacker"}}}',
+           '{"action_type": "scannetwork", "parameters": {}}', " \n", "\t"]
 
 
 class Gen:
@@ -273,8 +285,32 @@ def directed_config(rng, required, max_steps, goal_at_once=False, defender=False
 def directed(rng, k):
     """Run the k-th directed scenario; returns (Session, cfg, draw)."""
     kinds = ["eof", "readerr", "quit", "undecodable"]
-    k = k % 7
-    if k == 0:
+    k = k % 8
+    if k == 7:
+        # bad requests tour: every kind of bad request, before and after joining, with a second agent waiting at a barrier
+        cfg, draw = directed_config(rng, 2, 4)
+        S = CR.Session(cfg, draw=draw)
+        a, b = ("10.2.7.1", 1), ("10.2.7.2", 2)
+        S.connect(a); S.connect(b); S.settle()
+        t, d = game_msg("FindData", source_host=ip("192.168.2.2"), target_host=ip("192.168.2.2"))
+        S.send(a, t, d); S.settle()                                   # game action before joining
+        _reset(S, a, False); S.settle()                               # reset before joining
+        S.send(a, nsgenv.join("x", "Hacker"), {"kind": "join", "name": "x", "role": "Hacker"}); S.settle()
+        _join(S, a, "a", "Attacker"); S.settle()                      # held at the start barrier
+        _join(S, b, "b", rng.choice(["Attacker", "Defender"])); S.settle()
+        _join(S, a, "a2", "Attacker"); S.settle()                     # second join of a joined agent
+        _scan(S, a); S.settle()
+        for gb in rng.sample(GARBAGE, 5):
+            S.send(rng.choice([a, b]), gb, {"kind": "garbage"}); S.settle()
+        t, d = gen_invalid_game(rng)
+        S.send(b, t, d); S.settle()
+        _reset(S, a, True); S.settle()                                # a waits at the reset barrier
+        _join(S, b, "b2", "Defender"); S.settle()                     # second join while the other waits
+        S.send(b, rng.choice(GARBAGE), {"kind": "garbage"}); S.settle()
+        t, d = game_msg("BlockIP", source_host=ip("192.168.2.2"), target_host=ip("192.168.2.2"), blocked_host=ip("8.8.8.8"))
+        S.send(b, t, d); S.settle()
+        _reset(S, b, False); S.settle()
+    elif k == 0:
         # a successful attacker waits; the other agent leaves; a new defender joins the finished game and ends
         cfg, draw = directed_config(rng, 2, 5, goal_at_once=True)
         S = CR.Session(cfg, draw=draw)
